@@ -133,7 +133,7 @@ def run_case(case):
         from . import c18
         r = c18.run_pair(case)
         keep = [(sg, m) for sg, m in r.violations
-                if sg.startswith(("get-after-closed", "event-after-closed", "event-twice:closed", "internal"))]
+                if sg.startswith(("get-after-closed", "event-after-closed", "event-twice:closed", "internal", "second-close", "verdict:"))]
         return Result([], [], keep, ["pair"], True, info=r.info)
     if case.get("kind") == "trace":
         return mc.run_trace_case(case, trace_oracle)
